@@ -53,3 +53,4 @@ run "aadbaa0 yaml << quoting" C05 -- aadbaa0
 run "64284f9 YAML block-scalar guard" C14 C05 -- 64284f9
 run "56ab4b7 symlink cycle" C08 -- 56ab4b7
 run "ed4068c structural deepClone" C01 C12 -- ed4068c
+run "9344719 flags rejects arguments" C14 -- 9344719
